@@ -1,6 +1,6 @@
 (* C13 -- property theorems (statements only; proofs in C13Proofs.v) *)
 From Coq Require Import Reals ZArith QArith List Bool Arith.
-From C13 Require Import C14Model C13Model C13Proofs.
+From C13 Require Import C14Model C13Model C13Proofs C13ParsePrint.
 Import ListNotations.
 
 (* which operator is applied first in  a o1 b o2 c, for every pair of operators and all sub-formulas *)
@@ -45,25 +45,46 @@ Theorem C13_operator_sequences_rejected : forall a b,
 Proof. exact reduce_rejects. Qed.
 Print Assumptions C13_operator_sequences_rejected.
 
-(* the whole pipeline on concrete token lists (grouping, functions, conditionals, rejections) *)
-Theorem C13_pipeline_examples :
-  parse [KNum 1; KOp Plus; KNum 2; KOp Mult; KVar 0] = Some (Bin Plus (Num 1) (Bin Mult (Num 2) X)) /\
-  parse [KL; KNum 1; KOp Plus; KNum 2; KR; KOp Mult; KVar 0] = Some (Bin Mult (Bin Plus (Num 1) (Num 2)) X) /\
-  parse [KOp Minus; KVar 0; KOp Pow; KNum 2] = Some (Neg (PowN 2 X)) /\
-  parse [KVar 0; KOp Pow; KVar 1; KOp Pow; KVar 2] = Some (Bin Pow (Bin Pow X (Var 1)) (Var 2)) /\
-  parse [KFun Sin; KL; KVar 0; KOp Div; KNum 2; KR] = Some (Fun Sin (Bin Div X (Num 2))) /\
-  parse [KBFun Max; KL; KVar 0; KComma; KNum 2; KR] = Some (BFun Max X (Num 2)) /\
-  parse [KVar 0; KCmp CGt; KNum 1; KQ; KFun Sin; KL; KVar 0; KR; KColon; KNum 2] =
+(* the whole pipeline on concrete token lists (grouping, functions, conditionals, rejections), for the pinned tree
+   and for every combination of the three repairs *)
+Theorem C13_pipeline_examples : forall v : variant,
+  parse_gen v [KNum 1; KOp Plus; KNum 2; KOp Mult; KVar 0] = Some (Bin Plus (Num 1) (Bin Mult (Num 2) X)) /\
+  parse_gen v [KL; KNum 1; KOp Plus; KNum 2; KR; KOp Mult; KVar 0] = Some (Bin Mult (Bin Plus (Num 1) (Num 2)) X) /\
+  parse_gen v [KOp Minus; KVar 0; KOp Pow; KNum 2] = Some (Neg (PowN 2 X)) /\
+  parse_gen v [KVar 0; KOp Pow; KVar 1; KOp Pow; KVar 2] = Some (Bin Pow (Bin Pow X (Var 1)) (Var 2)) /\
+  parse_gen v [KFun Sin; KL; KVar 0; KOp Div; KNum 2; KR] = Some (Fun Sin (Bin Div X (Num 2))) /\
+  parse_gen v [KBFun Max; KL; KVar 0; KComma; KNum 2; KR] = Some (BFun Max X (Num 2)) /\
+  parse_gen v [KVar 0; KCmp CGt; KNum 1; KQ; KFun Sin; KL; KVar 0; KR; KColon; KNum 2] =
     Some (Cond (LCmp CGt X (Num 1)) (Fun Sin X) (Num 2)) /\
-  parse [KVar 0; KCmp CGt; KNum 1; KAnd; KNot; KVar 1; KCmp CLe; KNum 2; KQ; KNum 1; KColon; KNum 0] =
+  parse_gen v [KVar 0; KCmp CGt; KNum 1; KAnd; KNot; KVar 1; KCmp CLe; KNum 2; KQ; KNum 1; KColon; KNum 0] =
     Some (Cond (LAnd (LCmp CGt X (Num 1)) (LNot (LCmp CLe (Var 1) (Num 2)))) (Num 1) (Num 0)) /\
-  parse [KL; KVar 0] = None /\ parse [KVar 0; KR] = None /\ parse [] = None /\
-  parse [KVar 0; KOp Minus; KOp Minus; KVar 1] = None /\ parse [KFun Sin; KVar 0] = None /\
-  parse [KVar 0; KQ; KNum 1; KColon; KNum 2] = None.
+  parse_gen v [KL; KVar 0] = None /\ parse [KVar 0; KR] = None /\ parse [] = None /\
+  parse_gen v [KVar 0; KOp Minus; KOp Minus; KVar 1] = None /\ parse [KFun Sin; KVar 0] = None /\
+  parse_gen v [KVar 0; KQ; KNum 1; KColon; KNum 2] = None.
 Proof. exact parse_examples. Qed.
 Print Assumptions C13_pipeline_examples.
 
 (* the pipeline is a total function: every token list is mapped to a tree or rejected *)
-Theorem C13_total : forall l, (exists e, parse l = Some e) \/ parse l = None.
+Theorem C13_total : forall v l, (exists e, parse_gen v l = Some e) \/ parse_gen v l = None.
 Proof. exact parse_total. Qed.
 Print Assumptions C13_total.
+
+(* GENERAL (restricted fragment, hence _partial): for EVERY expression tree made of non-negative numbers, variables,
+   unary minus, + - * / and calls of the one-argument functions, the tokens printed with the minimal parentheses of the
+   usual precedence and left associativity (print = the printer of check.py on this fragment; a unary minus is written
+   bare at the beginning of a group and directly after * or /) are accepted by the modelled pipeline -- treatGroup,
+   treatGroup2, function application and the five passes of TGroup::reduce, for the pinned tree and for every
+   combination of the repairs -- and the tree that it builds evaluates like the original one over the reals, for any
+   interpretation of the functions.  Not covered by this theorem: ** (see C13_left_associative / C13_unary_minus /
+   C13_precedence_pairs), two-argument functions, conditionals. *)
+Theorem C13_parse_print_partial : forall (v : variant) (e : expr), frag e = true ->
+  exists e', parse_gen v (print e) = Some e' /\
+    forall rpow rpowz df uf bf l10 lt le eq env,
+      eval (Rops13 rpow rpowz df uf bf l10 lt le eq) env e' = eval (Rops13 rpow rpowz df uf bf l10 lt le eq) env e.
+Proof. exact parse_print_value. Qed.
+Print Assumptions C13_parse_print_partial.
+
+(* the reduction passes on the flat view of a sum of terms: the tree built by the five passes, syntactically *)
+Theorem C13_reduce_flat_sum : forall s : sm, reduce (sitems s) = Some (sres s).
+Proof. exact reduce_sum. Qed.
+Print Assumptions C13_reduce_flat_sum.
